@@ -118,6 +118,23 @@ Theorem C13_fs_orphan_output_refuted :
 Proof. exact fs_orphan_output_witness. Qed.
 Print Assumptions C13_fs_orphan_output_refuted.
 
+(* (c) what does hold for the filesystem store, final state only (writer with Abort): if no
+   TombstoneFile fails in an uncommitted run - in particular under any single fault - the
+   directory shows exactly the old content after Merge returned; a committed run shows the old
+   content minus the sources plus the outputs whatever the source tombstones did *)
+Theorem C13_fs_final : forall outf, (forall p, f_ptr (outf p) = p) ->
+  forall fo outp groups st,
+  NoDup (the_outs outp groups) ->
+  (forall o, In o (the_outs outp groups) -> ~ In o (ptrs st)) ->
+  (forall o, In o (the_outs outp groups) -> ~ In o (the_dels groups)) ->
+  let tr := fst (merge_prog fo true outp groups) in
+  (committedb tr = false -> (forall e, In e tr -> is_tomb_ev e = true -> e_ok e = true) ->
+   vis_after MSFs outf st tr = st) /\
+  (committedb tr = true ->
+   vis_after MSFs outf st tr = remove_ptrs (the_dels groups) st ++ map outf (the_outs outp groups)).
+Proof. exact merge_fs_final. Qed.
+Print Assumptions C13_fs_final.
+
 (* non-vacuity: the freshness premise is satisfiable and all four classes occur *)
 Example C13_nonvacuous :
   (forall o, In o (outs_from w_outp 0 (length w_groups)) -> ~ In o (flat_map g_srcs w_groups)) /\
